@@ -77,6 +77,12 @@ func (rl *RangeLoop) Iterate() inspector.LoopCtl {
 		if err == ErrContLoop {
 			return inspector.LoopCtlCnt
 		}
+		if err != nil && err != ErrLBreakLoop {
+			// The rule failed: stop the loop and report the failure.
+			rl.ctx.Err = err
+			rl.brk = true
+			return inspector.LoopCtlBrk
+		}
 	}
 	if err == ErrBreakLoop || lerr == ErrLBreakLoop {
 		if rl.ctx.brkD > 0 {
